@@ -164,7 +164,7 @@ fn run_in_worker_uncached(target: u8, flags: u32, data: &[u8], target_name: &str
             }
             let second = attempt(data);
             if first.cpu_limit && second.as_ref().err().map(|d| d.cpu_limit).unwrap_or(false) {
-                return Err(Failure::new(format!("abort:cpu-limit:{target_name}"), format!("an input of {} bytes kept the library busy for more than {} s of CPU time, twice", data.len(), CPU_LIMIT_US / 1_000_000)));
+                return Err(Failure::new("abort:cpu-limit".to_string(), format!("an input of {} bytes kept the library busy for more than {} s of CPU time, twice", data.len(), CPU_LIMIT_US / 1_000_000)));
             }
             let third = attempt(data);
             match (second, third) {
@@ -190,7 +190,7 @@ fn run_in_worker_uncached(target: u8, flags: u32, data: &[u8], target_name: &str
 }
 
 /// CPU seconds one input may use before the worker gives up (C15 "hangs", C17 "near-endless loop")
-pub const CPU_LIMIT_US: u64 = 10_000_000;
+pub const CPU_LIMIT_US: u64 = 4_000_000;
 
 /// allocation caps for an input of n bytes: one request, and live bytes of the thread
 pub fn caps(n: usize) -> (usize, usize) {
